@@ -1,4 +1,5 @@
 import ComposeVerif.Lemmas.Select
+import ComposeVerif.Lemmas.SelectCalls
 import ComposeVerif.Neg.C15
 import ComposeVerif.Lemmas.AuditCmd  -- makes sure the audit command is built with this module
 /-!
@@ -559,6 +560,537 @@ theorem select_perm_outcome {p p' : Proj} (g : Good p) (e : SameProj p p') {name
 /-- before the `fix:` commit the full-strength statement failed (witness in `Neg/C15.lean`, on the old loop) -/
 theorem select_perm_failed_before_fix : ¬Neg.SelectPermInvariant := Neg.select_not_perm_invariant
 
+/-! ## round 5: `ForEachService` itself — option handling, the callback sequence -/
+
+/-- no option = `IncludeDependencies` (the "backward compatibility" branch of `ForEachService` and the initial value
+of `withServicesOptions` agree) -/
+theorem policy_default : policyOf [] = .deps := rfl
+
+/-- of several `DependencyOption`s the last one decides -/
+theorem policy_last_wins (opts : List Policy) (o : Policy) : policyOf (opts ++ [o]) = o := by
+  simp [policyOf, List.foldl_append]
+
+/-- recording the calls of `fn` does not change the walk: `forEachCalls` refines `forEachService` (so every theorem
+about the set recorded by `WithSelectedServices` is a theorem about `ForEachService`) -/
+theorem forEach_refines (p : Proj) (names : List String) (opts : List Policy) :
+    (forEachCalls p names opts).forget = forEachService p names (policyOf opts) :=
+  walkC_forget _ _ _ _ _ _ _
+
+/-- an empty `names` is "all enabled services" -/
+theorem forEach_all (p : Proj) (pol : Policy) :
+    forEachService p [] pol = forEachService p (keys p.services) pol := by
+  unfold forEachService
+  simp only [walk]
+  cases hk : keys p.services <;> simp
+
+theorem forEach_never_out_of_fuel {p : Proj} (h : Partition p) (nk : NamesOK p) (names : List String) (opts : List Policy) :
+    forEachCalls p names opts ≠ .outOfFuel := by
+  intro c
+  have := forEach_refines p names opts
+  rw [c] at this
+  exact forEachService_fuel h.1 nk.services names (policyOf opts) this.symm
+
+/-- **the callback sequence of `ForEachService`**: `fn` is called exactly once with every service of the closure of
+the names (all enabled services when no name is given), and a service pulled in by `x` — a dependency of `x`, or a
+dependent of `x` under `IncludeDependents` — is called before `x`, unless it lies on a dependency cycle through `x`.
+Holds for every iteration order of the maps (the model ranges in list order; the statement does not mention it). -/
+theorem forEach_calls_exact {p : Proj} (h : Partition p) (nk : NamesOK p) (names : List String) (opts : List Policy)
+    {seen calls : List String} (hq : forEachCalls p names opts = .ok seen calls) :
+    ForEachSpec p names (policyOf opts) calls := by
+  have nd := h.1
+  have P := walkC_post nd nk.services (policyOf opts) hq
+  have hperm := (walkC_perm p.services (policyOf opts) _ _ _ [] _ _ _ _ hq (by simp) (by simp))
+  simp only [List.nil_append] at hperm
+  have cnd : calls.Nodup := hperm.1.nodup_iff.2 hperm.2
+  obtain ⟨new, e, _, _, t⟩ := walkC_topo nd nk.services (policyOf opts) _ _ _ _ _ _ _ hq
+  simp only [List.nil_append] at e
+  subst e
+  have roots : (if names.isEmpty then keys p.services else names) = rootsOf p names := rfl
+  rw [roots] at P
+  have mem : ∀ x, x ∈ calls ↔ Reach p.services (policyOf opts) (rootsOf p names) x := by
+    intro x
+    rw [hperm.1.mem_iff]
+    constructor
+    · intro hx
+      rcases P.sound x hx with h1 | ⟨r, hr, hk, hs⟩
+      · cases h1
+      · exact reach_of_star hr hk hs
+    · intro hx
+      induction hx with
+      | root hr hk => exact P.roots _ hr hk
+      | step _ e ih => exact P.closed _ ih (by simp) _ e
+  refine ⟨cnd, ⟨fun x hx => (closure_eq_reach nd _ _ x).2 ((mem x).1 hx),
+    fun x hx => (mem x).2 ((closure_eq_reach nd _ _ x).1 hx)⟩, ?_⟩
+  intro x hx y hy
+  have hxy := (mem_succ_iff nd _ x y).1 hy
+  rcases t x hx y hxy with q | q | q
+  · cases q
+  · exact .inl (before_of_Before cnd q)
+  · exact .inr ((closure_eq_reach nd _ _ x).2 (reach_of_star (by simp) (edge_target_mem hxy) q))
+
+/-- in particular on an acyclic dependency graph every dependency is started before the service that needs it -/
+theorem forEach_dependencies_first {p : Proj} (h : Partition p) (nk : NamesOK p) (names : List String) (opts : List Policy)
+    {seen calls : List String} (hq : forEachCalls p names opts = .ok seen calls)
+    (acyclic : ∀ x y, Edge p.services (policyOf opts) x y → ¬ Reach p.services (policyOf opts) [y] x)
+    {x y : String} (hx : x ∈ calls) (hxy : Edge p.services (policyOf opts) x y) : before calls y x = true := by
+  rcases (forEach_calls_exact h nk names opts hq).2.2 x hx y ((mem_succ_iff h.1 _ x y).2 hxy) with q | q
+  · exact q
+  · exact absurd ((closure_eq_reach h.1 _ _ x).1 q) (acyclic x y hxy)
+
+/-- `ForEachService` fails ("no such service") exactly when the property's reference outcome is a rejection: a requested
+name is not an enabled service, or a service of the closure has a required dependency that is not enabled -/
+theorem forEach_error_iff {p : Proj} (g : Good p) (names : List String) (opts : List Policy) :
+    forEachCalls p names opts = .noSuchService ↔ eachWanted p names (policyOf opts) = none := by
+  have ref := forEach_refines p names opts
+  have step1 : forEachCalls p names opts = .noSuchService ↔ forEachService p names (policyOf opts) = .noSuchService := by
+    cases hc : forEachCalls p names opts <;> rw [hc] at ref <;> simp only [WalkC.forget] at ref <;> rw [← ref] <;> simp
+  have step2 : forEachService p names (policyOf opts) = forEachService p (rootsOf p names) (policyOf opts) := by
+    unfold rootsOf
+    by_cases hn : names.isEmpty = true
+    · rw [if_pos hn]
+      have : names = [] := by cases names <;> simp_all
+      subst this
+      exact forEach_all p _
+    · rw [if_neg hn]
+  rw [step1, step2]
+  unfold eachWanted
+  by_cases hr : rootsOf p names = []
+  · -- no name and no enabled service: nothing to visit, nothing to reject
+    have hk : p.services = [] := by
+      unfold rootsOf at hr
+      by_cases hn : names.isEmpty = true
+      · rw [if_pos hn] at hr
+        cases hs : p.services with
+        | nil => rfl
+        | cons a b => rw [hs] at hr; simp [keys] at hr
+      · rw [if_neg hn] at hr; subst hr; simp at hn
+    rw [hr]
+    simp [forEachService, walk, walkLoop, selectWanted, closure, closureN, hk, keys]
+  · rw [selectWanted_none_iff g hr]
+    have ne : (rootsOf p names).isEmpty = false := by cases h : rootsOf p names <;> simp_all
+    cases hw : forEachService p (rootsOf p names) (policyOf opts) <;> simp [withSelectedServices, hw, ne]
+
+/-- without the acyclicity hypothesis `forEach_dependencies_first` is false (witness in `Neg/C15.lean`); the
+full-strength statement is `forEach_calls_exact`, which excuses exactly the edges on a cycle -/
+theorem forEach_dependencies_first_needs_acyclic : ¬Neg.DepsFirst := Neg.deps_first_fails_on_a_cycle
+
+/-! ### `ForEachService` is a function of the project, the names and the options (as a set of calls) -/
+
+/-- the calls of `fn` are a function of the project, the names and the options **as a set** (their order among
+siblings is Go's map order): two iteration orders of the same maps give the same set of calls -/
+theorem forEach_calls_perm {p p' : Proj} (h : Partition p) (nk : NamesOK p) (e : SameProj p p') (names : List String)
+    (opts : List Policy) {seen calls seen' calls' : List String}
+    (hq : forEachCalls p names opts = .ok seen calls) (hq' : forEachCalls p' names opts = .ok seen' calls') :
+    calls.Perm calls' := by
+  have h' := partition_perm h e
+  have nk' := namesOK_perm nk e.1 e.2.1
+  have es := lookEq_of_perm e.1 h.1
+  have S := forEach_calls_exact h nk names opts hq
+  have S' := forEach_calls_exact h' nk' names opts hq'
+  rw [List.perm_ext_iff_of_nodup S.1 S'.1]
+  intro x
+  have roots : ∀ r, r ∈ rootsOf p names ↔ r ∈ rootsOf p' names := by
+    intro r
+    unfold rootsOf
+    by_cases hn : names.isEmpty = true
+    · simp only [hn, if_true]; exact mem_keys_lookEq es r
+    · simp only [hn]; exact Iff.rfl
+  constructor
+  · intro hx
+    apply S'.2.1.2
+    rw [closure_eq_reach h'.1]
+    have := (closure_eq_reach h.1 _ _ x).1 (S.2.1.1 x hx)
+    exact Reach.mono (fun r hr => (roots r).1 hr) (reach_lookEq es this)
+  · intro hx
+    apply S.2.1.2
+    rw [closure_eq_reach h.1]
+    have := (closure_eq_reach h'.1 _ _ x).1 (S'.2.1.1 x hx)
+    exact Reach.mono (fun r hr => (roots r).2 hr) (reach_lookEq (fun k => (es k).symm) this)
+
+
+
+theorem reach_nil {svcs : AL Svc} {pol : Policy} {x : String} : ¬Reach svcs pol [] x := by
+  intro h
+  induction h with
+  | root hr _ => cases hr
+  | step _ _ ih => exact ih
+
+/-- the rejection condition of `ForEachService`, spelled out -/
+theorem forEach_error_iff' {p : Proj} (g : Good p) (names : List String) (opts : List Policy) :
+    forEachCalls p names opts = .noSuchService ↔
+      (∃ n ∈ rootsOf p names, n ∉ keys p.services) ∨
+      ∃ x, Reach p.services (policyOf opts) (rootsOf p names) x ∧ MissingRequired p.services (policyOf opts) x := by
+  rw [forEach_error_iff g]
+  unfold eachWanted
+  by_cases hr : rootsOf p names = []
+  · rw [hr]
+    have hc : closure p.services (policyOf opts) [] = [] := by
+      unfold closure
+      have : ∀ n, closureN p.services (policyOf opts) n [] = [] := by
+        intro n; induction n with
+        | zero => rfl
+        | succ n ih => simp [closureN, expand, ih]
+      simpa using this _
+    have : selectWanted p [] (policyOf opts) ≠ none := by simp [selectWanted, hc]
+    constructor
+    · intro c; exact absurd c this
+    · rintro (⟨n, hn, _⟩ | ⟨x, hx, _⟩)
+      · cases hn
+      · exact absurd hx reach_nil
+  · rw [selectWanted_none_iff g hr, select_error_iff g hr]
+
+/-- success or failure of `ForEachService` does not depend on the iteration order of the maps -/
+theorem forEach_outcome_perm {p p' : Proj} (g : Good p) (e : SameProj p p') (names : List String) (opts : List Policy) :
+    forEachCalls p names opts = .noSuchService ↔ forEachCalls p' names opts = .noSuchService := by
+  have es := lookEq_of_perm e.1 g.1.1
+  have g' : Good p' := ⟨partition_perm g.1 e, fun kv hkv => g.2.1 kv (by
+    rcases List.mem_append.1 hkv with a | a
+    · exact List.mem_append_left _ (e.1.mem_iff.2 a)
+    · exact List.mem_append_right _ (e.2.1.mem_iff.2 a)), namesOK_perm g.2.2 e.1 e.2.1⟩
+  have roots : ∀ r, r ∈ rootsOf p names ↔ r ∈ rootsOf p' names := by
+    intro r
+    unfold rootsOf
+    by_cases hn : names.isEmpty = true
+    · simp only [hn, if_true]; exact mem_keys_lookEq es r
+    · simp only [hn]; exact Iff.rfl
+  have mr : ∀ x, MissingRequired p.services (policyOf opts) x ↔ MissingRequired p'.services (policyOf opts) x := by
+    intro x
+    unfold MissingRequired
+    rw [es x]
+    cases lookup x p'.services with
+    | none => simp [sat]
+    | some s => simp only [sat, mem_keys_lookEq es]
+  rw [forEach_error_iff' g, forEach_error_iff' g']
+  constructor
+  · rintro (⟨n, a, b⟩ | ⟨x, a, b⟩)
+    · exact .inl ⟨n, (roots n).1 a, fun c => b ((mem_keys_lookEq es n).2 c)⟩
+    · exact .inr ⟨x, Reach.mono (fun r hr => (roots r).1 hr) (reach_lookEq es a), (mr x).1 b⟩
+  · rintro (⟨n, a, b⟩ | ⟨x, a, b⟩)
+    · exact .inl ⟨n, (roots n).2 a, fun c => b ((mem_keys_lookEq es n).1 c)⟩
+    · exact .inr ⟨x, Reach.mono (fun r hr => (roots r).2 hr) (reach_lookEq (fun k => (es k).symm) a), (mr x).2 b⟩
+
+/-! ## round 5: accessors -/
+
+/-- `ServiceNames()` is the sorted list of the enabled keys … -/
+theorem serviceNames_exact (p : Proj) :
+    (serviceNames p).Perm (keys p.services) ∧ (serviceNames p).Pairwise (· ≤ ·) :=
+  ⟨sortNames_perm _, sortNames_sorted _⟩
+
+/-- … hence a function of the map, not of its iteration order (same for `DisabledServiceNames`) -/
+theorem serviceNames_perm {p p' : Proj} (e : SameProj p p') :
+    serviceNames p = serviceNames p' ∧ disabledServiceNames p = disabledServiceNames p' :=
+  ⟨sortNames_eq_of_perm (e.1.map _), sortNames_eq_of_perm (e.2.1.map _)⟩
+
+/-- `GetService` reads the partition: a service value iff the name is enabled, `ErrDisabled` iff it is (only)
+disabled, `ErrNotFound` iff the project does not know it -/
+theorem getService_reads_partition (p : Proj) (n : String) :
+    (∀ s, getService p n = .ok s ↔ lookup n p.services = some s) ∧
+    (getService p n = .disabled ↔ n ∉ keys p.services ∧ n ∈ keys p.disabled) ∧
+    (getService p n = .notFound ↔ n ∉ known p) := by
+  unfold getService has
+  cases hs : lookup n p.services with
+  | some s =>
+    have hk := keys_of_lookup hs
+    refine ⟨fun t => by simp, by simp [hk], by simp [mem_known, hk]⟩
+  | none =>
+    have hk := lookup_eq_none.1 hs
+    by_cases hd : n ∈ keys p.disabled
+    · have : (lookup n p.disabled).isSome = true := lookup_isSome.2 hd
+      simp [this, hk, hd, mem_known]
+    · have : (lookup n p.disabled).isSome = false := by
+        cases h : (lookup n p.disabled).isSome
+        · rfl
+        · exact absurd (lookup_isSome.1 h) hd
+      simp [this, hk, hd, mem_known]
+
+theorem getServicesLoop_ok (p : Proj) : ∀ (ns : List String) (acc m : AL Svc), getServicesLoop p ns acc = .ok m →
+    (∀ n ∈ ns, n ∈ keys p.services) ∧ ∀ k, lookup k m = if k ∈ ns then lookup k p.services else lookup k acc := by
+  intro ns
+  induction ns with
+  | nil => intro acc m h; simp only [getServicesLoop, GetMany.ok.injEq] at h; subst h; simp
+  | cons n ns ih =>
+    intro acc m h
+    unfold getServicesLoop at h
+    cases hg : getService p n with
+    | ok s =>
+      simp only [hg] at h
+      have hl := ((getService_reads_partition p n).1 s).1 hg
+      obtain ⟨a, b⟩ := ih _ _ h
+      refine ⟨fun x hx => ?_, fun k => ?_⟩
+      · rcases List.mem_cons.1 hx with e | e
+        · exact e ▸ keys_of_lookup hl
+        · exact a x e
+      · rw [b k]
+        by_cases hk : k ∈ ns
+        · simp [hk]
+        · by_cases hkn : k = n
+          · subst hkn; simp [hk, lookup_insert, hl]
+          · simp [hk, hkn, lookup_insert]
+    | disabled => simp [hg] at h
+    | notFound => simp [hg] at h
+
+/-- `GetServices(names…)`: succeeds only if every name is enabled and then returns exactly the named enabled
+services; without a name it returns the service map -/
+theorem getServices_exact (p : Proj) (names : List String) (m : AL Svc) (h : getServices p names = .ok m) :
+    (∀ n ∈ names, n ∈ keys p.services) ∧
+    ∀ k, lookup k m = if names = [] ∨ k ∈ names then lookup k p.services else none := by
+  unfold getServices at h
+  by_cases hn : names.isEmpty = true
+  · have : names = [] := by cases names <;> simp_all
+    subst this
+    simp only [List.isEmpty_nil, if_true, GetMany.ok.injEq] at h
+    subst h
+    simp
+  · rw [if_neg hn] at h
+    have hne : names ≠ [] := fun c => hn (by simp [c])
+    obtain ⟨a, b⟩ := getServicesLoop_ok p names [] m h
+    refine ⟨a, fun k => ?_⟩
+    rw [b k]
+    simp [hne, lookup]
+
+/-- `GetDependentsForService(s)` of an enabled service filed under its own name: exactly the services the
+`IncludeDependents` policy pulls in, sorted -/
+theorem getDependents_exact {p : Proj} (nd : (keys p.services).Nodup) (nk : NamesOK p) {x : String} {s : Svc}
+    (hs : lookup x p.services = some s) (y : String) :
+    y ∈ getDependentsForService p s ↔ Edge p.services .dependents x y := by
+  unfold getDependentsForService
+  rw [mem_sortNames]
+  have hname : s.name = x := nk.services _ (mem_of_lookup hs)
+  rw [mem_keys_dependents nk.services hname]
+  unfold Edge
+  exact ⟨fun ⟨s', hm, hd⟩ => ⟨keys_of_lookup hs, s', lookup_of_mem nd hm, hd⟩,
+    fun ⟨_, s', hl, hd⟩ => ⟨s', mem_of_lookup hl, hd⟩⟩
+
+/-! ## round 5: compositions -/
+
+/-- disabling in two calls is disabling the concatenated argument list in one -/
+theorem disable_disable (p : Proj) (a b : List String) :
+    withServicesDisabled (withServicesDisabled p a) b = withServicesDisabled p (a ++ b) := by
+  simp [withServicesDisabled, List.foldl_append]
+
+/-- pruning twice is pruning once -/
+theorem prune_idempotent (p : Proj) :
+    LookEq (withoutUnnecessaryResources (withoutUnnecessaryResources p)).networks (withoutUnnecessaryResources p).networks ∧
+    LookEq (withoutUnnecessaryResources (withoutUnnecessaryResources p)).volumes (withoutUnnecessaryResources p).volumes ∧
+    LookEq (withoutUnnecessaryResources (withoutUnnecessaryResources p)).secrets (withoutUnnecessaryResources p).secrets ∧
+    LookEq (withoutUnnecessaryResources (withoutUnnecessaryResources p)).configs (withoutUnnecessaryResources p).configs := by
+  refine ⟨fun k => ?_, fun k => ?_, fun k => ?_, fun k => ?_⟩ <;>
+    simp only [withoutUnnecessaryResources, lookup_pick] <;> split <;> simp_all
+
+/-- `WithProfiles` repartitions **from the union of both sets**: the result depends on the services known to the project
+and not on how they are currently split, so applying it after another `WithProfiles` forgets the earlier one -/
+theorem profiles_forgets_partition {p : Proj} (h : Partition p) (P Q : List String) :
+    LookEq (withProfiles (withProfiles p P) Q).services (withProfiles p Q).services ∧
+    LookEq (withProfiles (withProfiles p P) Q).disabled (withProfiles p Q).disabled ∧
+    (withProfiles (withProfiles p P) Q).profiles = (withProfiles p Q).profiles := by
+  have hp := withProfiles_partition h P
+  refine ⟨fun k => ?_, fun k => ?_, rfl⟩
+  · rw [lookup_withProfiles_services hp, lookup_withProfiles_services h, find_withProfiles h]
+  · rw [lookup_withProfiles_disabled hp, lookup_withProfiles_disabled h, find_withProfiles h]
+
+/-- in particular `WithProfiles P` is idempotent -/
+theorem profiles_idempotent {p : Proj} (h : Partition p) (P : List String) :
+    LookEq (withProfiles (withProfiles p P) P).services (withProfiles p P).services ∧
+    LookEq (withProfiles (withProfiles p P) P).disabled (withProfiles p P).disabled :=
+  ⟨(profiles_forgets_partition h P P).1, (profiles_forgets_partition h P P).2.1⟩
+
+/-- every history of `WithProfiles` calls is its last call -/
+theorem profiles_history {p : Proj} (h : Partition p) (Ps : List (List String)) (Q : List String) :
+    LookEq (run p ((Ps ++ [Q]).map Op.profiles)).services (withProfiles p Q).services ∧
+    LookEq (run p ((Ps ++ [Q]).map Op.profiles)).disabled (withProfiles p Q).disabled := by
+  induction Ps generalizing p with
+  | nil => exact ⟨fun _ => rfl, fun _ => rfl⟩
+  | cons P Ps ih =>
+    have hp := withProfiles_partition h P
+    have := ih hp
+    simp only [List.cons_append, List.map_cons, run_cons, applyOp]
+    refine ⟨fun k => ?_, fun k => ?_⟩
+    · rw [this.1 k]; exact (profiles_forgets_partition h P Q).1 k
+    · rw [this.2 k]; exact (profiles_forgets_partition h P Q).2.1 k
+
+/-! ## round 5: `Services.GetProfiles` (an unordered list: compared through its sorted view) -/
+
+/-- (the sorted view of) `GetProfiles` lists exactly the profiles named by a service of the map, each once … -/
+theorem getProfiles_exact (svcs : AL Svc) :
+    (∀ x, x ∈ getProfiles svcs ↔ ∃ kv ∈ svcs, x ∈ kv.2.profiles) ∧ (getProfiles svcs).Nodup ∧
+    (getProfiles svcs).Pairwise (· ≤ ·) := by
+  refine ⟨fun x => ?_, ?_, sortNames_sorted _⟩
+  · unfold getProfiles getProfilesPre
+    rw [mem_sortNames, List.mem_eraseDups, List.mem_flatMap]
+  · unfold getProfiles
+    exact (sortNames_perm _).nodup_iff.2 (nodup_eraseDups _)
+
+/-- … hence a function of the map and not of its iteration order (the raw slice is not: `Neg/C15.lean`) -/
+theorem getProfiles_perm {svcs svcs' : AL Svc} (e : svcs.Perm svcs') : getProfiles svcs = getProfiles svcs' := by
+  unfold getProfiles
+  apply sortNames_eq_of_perm
+  unfold getProfilesPre
+  rw [List.perm_ext_iff_of_nodup (nodup_eraseDups _) (nodup_eraseDups _)]
+  intro x
+  rw [List.mem_eraseDups, List.mem_eraseDups, List.mem_flatMap, List.mem_flatMap]
+  exact ⟨fun ⟨a, ha, hx⟩ => ⟨a, e.mem_iff.1 ha, hx⟩, fun ⟨a, ha, hx⟩ => ⟨a, e.mem_iff.2 ha, hx⟩⟩
+
+theorem getProfiles_raw_order_dependent : ¬Neg.GetProfilesPermInvariant :=
+  Neg.getProfiles_raw_order_dependent
+
+/-- the profiles `GetProfiles` reports for the disabled services named in a `WithServicesEnabled` call are the
+profiles that call activates (`wantedProfiles`), as a set -/
+theorem getProfiles_of_named_disabled {p : Proj} (h : Partition p) (names : List String) (x : String) :
+    x ∈ wantedProfiles p names ↔
+      x ∈ getProfiles (p.disabled.filter fun kv => kv.1 ∈ names ∧ kv.1 ∉ keys p.services) := by
+  rw [(getProfiles_exact _).1]
+  unfold wantedProfiles
+  rw [List.mem_flatMap]
+  constructor
+  · rintro ⟨n, hn, hx⟩
+    by_cases he : n ∈ keys p.services
+    · simp [he] at hx
+    · simp only [he, if_false] at hx
+      cases hl : lookup n p.disabled with
+      | none => simp [hl] at hx
+      | some s =>
+        simp only [hl] at hx
+        exact ⟨(n, s), List.mem_filter.2 ⟨mem_of_lookup hl, by simp [hn, he]⟩, hx⟩
+  · rintro ⟨kv, hkv, hx⟩
+    obtain ⟨hm, hc⟩ := List.mem_filter.1 hkv
+    simp only [decide_eq_true_eq] at hc
+    refine ⟨kv.1, hc.1, ?_⟩
+    simp only [hc.2, if_false]
+    rw [lookup_of_mem h.2.1 (show (kv.1, kv.2) ∈ p.disabled from hm)]
+    exact hx
+
+/-! ## round 5: option lists of `WithSelectedServices`, enable after disable -/
+
+/-- `WithSelectedServices(names, o₁ … oₙ)` is `WithSelectedServices(names, oₙ)`; without option it is
+`WithSelectedServices(names, IncludeDependencies)` -/
+theorem select_options (p : Proj) (names : List String) (opts : List Policy) (o : Policy) :
+    withSelectedServicesOpts p names (opts ++ [o]) = withSelectedServices p names o ∧
+    withSelectedServicesOpts p names [] = withSelectedServices p names .deps := by
+  unfold withSelectedServicesOpts
+  rw [policy_last_wins]
+  exact ⟨rfl, rfl⟩
+
+/-- a service that was enabled, on a project as a load leaves it, comes back when it is disabled and then enabled by
+name — whatever its profiles (they are activated).  What does *not* come back are the `depends_on` entries the other
+services lost when it was disabled (`history_conserved`: dependencies only shrink). -/
+theorem enable_undoes_disable {p : Proj} (g : Good p) (ok : ProfilesOK p) {n : String} (hn : n ∈ keys p.services) :
+    n ∈ keys (withServicesEnabled (withServicesDisabled p [n]) [n]).services := by
+  have hq := withServicesDisabled_partition g.1 [n]
+  have okq : ProfilesOK (withServicesDisabled p [n]) := profilesOK_step g.1 g.2.2 ok (.disable [n]) rfl
+  have hk : n ∈ known (withServicesDisabled p [n]) := by
+    rw [← (partition_step g (.disable [n]) rfl).2.known]
+    exact mem_known.2 (.inl hn)
+  have E := enable_activates_profiles hq [n]
+  unfold EnableSpec at E
+  simp only [List.cons_ne_self, reduceCtorEq, if_false] at E
+  exact (E.2.2.2 okq n (by simp) hk).1
+
+/-- the closure of the names inside the result of a selection is the whole result -/
+theorem reach_in_selection {p q : Proj} {S names : List String} {pol : Policy}
+    (hS : ∀ x, x ∈ S ↔ Reach p.services pol names x) (sp : SelectSpec p S q) (ndq : (keys q.services).Nodup) {x : String}
+    (hx : Reach p.services pol names x) : Reach q.services pol names x := by
+  have inq : ∀ y, Reach p.services pol names y → y ∈ keys q.services := fun y hy => sp.1.2 y ((hS y).2 hy)
+  have look : ∀ y, y ∈ keys q.services → ∃ t s, lookup y q.services = some t ∧ lookup y p.services = some s ∧
+      t.deps = s.deps.filter (fun d => d.1 ∈ S) := by
+    intro y hy
+    obtain ⟨t, ht⟩ := Option.isSome_iff_exists.1 (lookup_isSome.2 hy)
+    have := sp.2.2.1 (y, t) (mem_of_lookup ht)
+    cases hs : lookup y p.services with
+    | none => simp [hs, sat] at this
+    | some s => simp only [hs, sat] at this; exact ⟨t, s, ht, rfl, this⟩
+  induction hx with
+  | root hr hk => exact .root hr (inq _ (.root hr hk))
+  | @step x y hx e ih =>
+    have hy : Reach p.services pol names y := .step hx e
+    refine .step ih ?_
+    cases pol with
+    | deps =>
+      obtain ⟨s, hs, hd, _⟩ := e
+      obtain ⟨t, s', ht, hs', hdeps⟩ := look x (inq x hx)
+      rw [hs] at hs'; cases hs'
+      refine ⟨t, ht, ?_, inq y hy⟩
+      rw [hdeps, mem_keys_filter]
+      obtain ⟨v, hv⟩ := mem_keys.1 hd
+      exact ⟨v, hv, by simpa using (hS y).2 hy⟩
+    | dependents =>
+      obtain ⟨_, s, hs, hd⟩ := e
+      obtain ⟨t, s', ht, hs', hdeps⟩ := look y (inq y hy)
+      rw [hs] at hs'; cases hs'
+      refine ⟨inq x hx, t, ht, ?_⟩
+      rw [hdeps, mem_keys_filter]
+      obtain ⟨v, hv⟩ := mem_keys.1 hd
+      exact ⟨v, hv, by simpa using (hS x).2 hx⟩
+    | ignore => exact e.elim
+
+/-- **selecting is idempotent**: selecting the same names with the same policy in the result of a successful selection
+succeeds and changes nothing — the enabled services are the same map, the disabled services and the profiles the same -/
+theorem select_idempotent {p : Proj} (g : Good p) {names : List String} (hn : names ≠ []) {pol : Policy}
+    {q : Proj} (hq : withSelectedServices p names pol = .ok q) :
+    ∃ q', withSelectedServices q names pol = .ok q' ∧ LookEq q'.services q.services ∧ q'.disabled = q.disabled ∧
+      q'.profiles = q.profiles := by
+  obtain ⟨S, hS, sp, _, _⟩ := select_exact g hn hq
+  have gq : Good q := (partition_step g (.select names pol) hq).1
+  have ndq := gq.1.1
+  have ne : names.isEmpty = false := by cases names <;> simp_all
+  -- the names are enabled in p (else the first selection would have failed), hence in q
+  have namesIn : ∀ n ∈ names, n ∈ keys p.services := by
+    intro n hnm
+    apply Classical.byContradiction
+    intro c
+    have := (select_error_iff g hn pol).2 (.inl ⟨n, hnm, c⟩)
+    rw [hq] at this; cases this
+  have keysq : ∀ x, x ∈ keys q.services ↔ Reach q.services pol names x := by
+    intro x
+    constructor
+    · intro hx
+      exact reach_in_selection hS sp ndq ((hS x).1 (sp.1.1 x hx))
+    · intro hx
+      induction hx with
+      | root _ hk => exact hk
+      | step _ e _ => exact edge_target_mem e
+  cases hw : forEachService q names pol with
+  | outOfFuel => exact absurd hw (forEachService_fuel ndq gq.2.2.services names pol)
+  | noSuchService =>
+    have herr : withSelectedServices q names pol = .err := by simp [withSelectedServices, hw, ne]
+    rcases (select_error_iff gq hn pol).1 herr with ⟨n, hnm, hnk⟩ | ⟨x, hx, hm⟩
+    · exact absurd ((keysq n).2 (reach_in_selection hS sp ndq (.root hnm (namesIn n hnm)))) hnk
+    · obtain ⟨_, hm⟩ := hm
+      cases hl : lookup x q.services with
+      | none => simp [hl, sat] at hm
+      | some t =>
+        simp only [hl, sat] at hm
+        obtain ⟨kv, hkv, _, hmiss⟩ := hm
+        exact absurd (sp.2.1 (x, t) (mem_of_lookup hl) kv.1 (mem_keys_of_mem hkv)) hmiss
+  | ok set' =>
+    have hset : ∀ x, x ∈ set' ↔ x ∈ keys q.services := fun x => by
+      rw [forEachService_reach ndq gq.2.2.services hn hw, keysq]
+    refine ⟨selectResult q set', withSelectedServices_ok ndq hn hw, fun k => ?_, ?_, ?_⟩
+    · show lookup k (selectedPruned set' q.services) = lookup k q.services
+      rw [lookup_selectedPruned ndq]
+      cases hl : lookup k q.services with
+      | none => simp
+      | some t =>
+        have hk : k ∈ set' := (hset k).2 (keys_of_lookup hl)
+        simp only [hk, if_true, Option.map_some, Option.some.injEq]
+        unfold pruneDeps
+        have : t.deps.filter (fun kv => decide (kv.1 ∈ set')) = t.deps := by
+          apply List.filter_eq_self.2
+          intro d hd
+          have := sp.2.1 (k, t) (mem_of_lookup hl) d.1 (mem_keys_of_mem hd)
+          simpa using (hset d.1).2 this
+        rw [this]
+    · have un : unselected set' q.services = [] := by
+        unfold unselected nonSelected
+        have : q.services.filter (fun kv => decide (kv.1 ∉ set')) = [] := by
+          apply List.filter_eq_nil_iff.2
+          intro kv hkv
+          simpa using (hset kv.1).2 (mem_keys_of_mem hkv)
+        rw [this]; rfl
+      show (withServicesDisabled q (unselected set' q.services)).disabled = q.disabled
+      rw [un]; rfl
+    · show (withServicesDisabled q _).profiles = q.profiles
+      exact withServicesDisabled_profiles q _
+
 /-! ## non-vacuity -/
 
 def exSvc (name : String) (profiles : List String) (deps : AL Dep) : Svc :=
@@ -581,5 +1113,24 @@ example : keys (withServicesEnabled exProj ["cache"]).services = ["web", "db", "
 example : keys (withoutUnnecessaryResources exProj).networks = ["n"] ∧
     keys (withoutUnnecessaryResources exProj).secrets = ["s"] := by decide
 example : withSelectedServices exProj ["cache"] .deps = .err := by decide
+
+/-! ### round 5 -/
+
+-- `web → db (required), cache (optional, disabled)`, `job → db`: the callbacks of `ForEachService(["web","job"])`
+example : forEachCalls exProj ["web", "job"] [] = .ok ["job", "db", "web"] ["db", "web", "job"] := by decide
+example : ForEachSpec exProj ["web", "job"] .deps ["db", "web", "job"] := by decide
+-- no name: all enabled services; `IncludeDependents` from `db`: the dependents come first
+example : forEachCalls exProj [] [.ignore] = .ok ["job", "db", "web"] ["web", "db", "job"] := by decide
+example : forEachCalls exProj ["db"] [.deps, .dependents] = .ok ["job", "web", "db"] ["web", "job", "db"] := by decide
+example : ForEachSpec exProj ["db"] .dependents ["web", "job", "db"] := by decide
+-- the acyclicity hypothesis of `forEach_dependencies_first` is satisfiable (and decided here through the executable closure)
+example : ∀ x ∈ keys exProj.services, ∀ y ∈ succ exProj.services .deps x, x ∉ closure exProj.services .deps [y] := by decide
+-- a required dependency on a disabled service is a rejection; an optional one is not
+example : forEachCalls exProj ["cache"] [] = .noSuchService ∧ eachWanted exProj ["cache"] .deps = none := by decide
+example : serviceNames exProj = ["db", "job", "web"] ∧ disabledServiceNames exProj = ["cache"] := by decide
+example : getService exProj "cache" = .disabled ∧ getService exProj "zz" = .notFound := by decide
+example : getServices exProj ["web", "cache"] = .disabled ∧ getServices exProj ["zz", "cache"] = .notFound := by decide
+example : getDependentsForService exProj (exSvc "db" [] []) = ["job", "web"] := by decide
+example : (withProfiles (withProfiles exProj ["p"]) []).services = (withProfiles exProj []).services := by decide
 
 end CV.Sel
